@@ -320,6 +320,14 @@ def wire_cases(rng, tier):
         valid = rfc1071(pseudo6(src, dst, 58, len(m)) + m) == 0
         yield Case(["ck.w.icmp6\t%s\t%s\t%s" % (hx(src), hx(dst), hx(m))],
                    {"k": "w6", "want": w, "valid": valid, "data": hx(m)})
+    # segments of 64 KiB and more: the IPv6 pseudo header carries a 32 bit length (RFC 8200 8.1), the IPv4 one
+    # cannot represent them (the crate must refuse)
+    for n in ([65516, 65517, 65536, 70001] if tier == "quick" else [65515, 65516, 65517, 65535, 65536, 65537, 70001, 131072]):
+        for v in (4, 6):
+            src, dst = _addr_pair(rng, 4 if v == 4 else 16)
+            pl = bytes([rng.randrange(256)]) * n
+            h = _tcp_header(rng)
+            yield Case(["ck.w.tcp%d\t%s\t%s\t%s\t%s" % (v, hx(src), hx(dst), hx(h), hx(pl))], {"k": "w", "want": 0, "data": hx(pl)})
     # Sum16BitWords method chains: random even-sized parts through add_2/4/8/16bytes and add_slice,
     # biased to saturated accumulators (all ones) so that carries out of bit 63 happen
     n = 3000 if tier == "quick" else 60000
